@@ -276,7 +276,7 @@ func (g *gen) next0() {
 }
 
 func forced(r *vlib.Run) {
-	n := r.N(3200, 48000)
+	n := r.N(8000, 48000)
 	if r.Race {
 		n /= 10
 	}
